@@ -5,6 +5,7 @@ import (
 	"math/big"
 	"strconv"
 	"strings"
+	"sync"
 
 	"github.com/llir/llvm/ir"
 	"github.com/llir/llvm/ir/constant"
@@ -32,6 +33,10 @@ type position struct {
 	single bool   // one item per module
 	noLF   bool   // LLVM splits the string at line feeds when printing (module asm)
 	asOnly bool   // llvm-dis prints this position without escaping (gc): only llvm-as's acceptance is observable
+	noLLVM bool   // LLVM validates the string itself (data layout, asm constraints, debug-info nodes that
+	// need further fields): LLVM is not consulted, the spec's decoding and the library's round trip decide
+	site  string // name used in the signature when the parser rejects every string here (default: name)
+	light bool   // quick tier: short strings only (the position shares its printer with fully enumerated ones)
 	// build puts the items into m through the public ir API.
 	build func(m *ir.Module, its []item)
 	// text renders a module with the given tokens at the position (spec -> code direction).
@@ -169,72 +174,43 @@ func globalString(name, field, keyword string, set func(g *ir.Global, s string),
 	}
 }
 
-// funcAttr is the shape shared by the key and the value of a string attribute.
-func funcAttr(name string, key bool) *position {
-	pair := func(b string) ir.AttrPair {
-		if key {
-			return ir.AttrPair{Key: b, Value: "v"}
+var (
+	allPositions     []*position
+	skippedPositions []string
+	positionsOnce    sync.Once
+)
+
+// positions lists the identifier and string positions exercised: the basic ones below, every
+// printing site of string attributes, further quoted strings and the debug-info string fields
+// (positions2.go).
+func positions() []*position {
+	positionsOnce.Do(func() {
+		allPositions = append(allPositions, basePositions()...)
+		attrs := attrPositions()
+		for _, p := range attrs {
+			// fully enumerated in the quick tier: the function header and the attribute group definition
+			p.light = !strings.HasSuffix(p.name, "@fn") && !strings.HasSuffix(p.name, "@group")
 		}
-		return ir.AttrPair{Key: "k", Value: b}
-	}
-	// llvm-dis prints the key of a string attribute without escaping (Attribute::getAsString)
-	return &position{name: name, enc: "enc.Quote", kind: "string", asOnly: key,
-		build: func(m *ir.Module, its []item) {
-			for _, it := range its {
-				f := m.NewFunc(fmt.Sprintf("f%d", it.idx), types.Void)
-				f.FuncAttrs = append(f.FuncAttrs, pair(it.b))
-			}
-		},
-		text: func(toks []string, its []item) string {
-			var sb strings.Builder
-			for k, it := range its {
-				if key {
-					fmt.Fprintf(&sb, "declare void @f%d() %s=\"v\"\n", it.idx, toks[k])
-				} else {
-					fmt.Fprintf(&sb, "declare void @f%d() \"k\"=%s\n", it.idx, toks[k])
-				}
-			}
-			return sb.String()
-		},
-		find: func(text string, it item) (string, bool) {
-			rest, ok := afterPrefix(text, fmt.Sprintf("declare void @f%d() ", it.idx))
-			if !ok {
-				return "", false
-			}
-			if strings.HasPrefix(rest, "#") { // LLVM moves the attribute into a group
-				rest, ok = afterPrefix(text, "attributes "+strings.TrimSpace(rest)+" = { ")
-				if !ok {
-					return "", false
-				}
-			}
-			if !key {
-				if !strings.HasPrefix(rest, `"k"=`) {
-					return "", false
-				}
-				rest = rest[4:]
-			}
-			return scanTok(rest, false), true
-		},
-		back: func(m *ir.Module, it item) (string, bool, bool) {
-			f := findFunc(m, fmt.Sprintf("f%d", it.idx))
-			if f == nil {
-				return "", false, false
-			}
-			for _, a := range f.FuncAttrs {
-				if p, ok := a.(ir.AttrPair); ok {
-					if key {
-						return p.Key, false, true
-					}
-					return p.Value, false, true
-				}
-			}
-			return "", false, false
-		},
-	}
+		allPositions = append(allPositions, attrs...)
+		more := morePositions()
+		for _, p := range more {
+			p.light = true
+		}
+		allPositions = append(allPositions, more...)
+		df := difilePosition()
+		df.light = true
+		allPositions = append(allPositions, df)
+		di, skipped := diPositions()
+		for _, p := range di {
+			p.light = true
+		}
+		allPositions = append(allPositions, di...)
+		skippedPositions = skipped
+	})
+	return allPositions
 }
 
-// positions lists the identifier and string positions exercised.
-func positions() []*position {
+func basePositions() []*position {
 	ps := []*position{
 		{name: "global", enc: "enc.GlobalName", kind: "global",
 			build: func(m *ir.Module, its []item) {
@@ -473,8 +449,6 @@ func positions() []*position {
 				return "", false, false
 			},
 		},
-		funcAttr("attrkey", true),
-		funcAttr("attrval", false),
 		globalString("section", "s", "section", func(g *ir.Global, s string) { g.Section = s }, func(g *ir.Global) string { return g.Section }),
 		globalString("partition", "p", "partition", func(g *ir.Global, s string) { g.Partition = s }, func(g *ir.Global) string { return g.Partition }),
 		{name: "gc", enc: "enc.Quote", kind: "string", asOnly: true,
